@@ -130,8 +130,8 @@ pub fn run_scenario(cfg: &Cfg) -> RunStat {
 
   let n = np + nc;
   let strat = match cfg.strategy.as_str() {
-    "pct" => Strategy::Pct { d: 3, k: 400 },
-    "pct5" => Strategy::Pct { d: 5, k: 800 },
+    "pct" => Strategy::Pct { d: 3, k: 120 },
+    "pct5" => Strategy::Pct { d: 5, k: 200 },
     _ => Strategy::Random { p: 0.25 },
   };
   let ctl = Ctl::new(n, cfg.seed ^ 0x9e3779b97f4a7c15, strat);
